@@ -15,7 +15,7 @@ for root, _, files in os.walk(os.path.join(dst, 'demo')):
     for f in files:
         if f.endswith('.go') or f in ('go.mod', 'go.sum'):
             os.rename(os.path.join(root, f), os.path.join(root, f + '.txt'))
-confirm = [l.strip() for l in open(log) if l.startswith('CONFIRM:')]
+confirm = [l.strip() for l in open(log, errors='replace') if l.startswith('CONFIRM:')]
 meta = {
     "property": prop,
     "breaks": open(os.path.join(src, 'NOTES.md')).read().split('\n\n')[0][:600] if os.path.exists(os.path.join(src, 'NOTES.md')) else "",
